@@ -8,14 +8,31 @@
 (*  3000 models with cond up to 1e4: worst observed / bound = 7e-3, see c07.py).  Index, sign, denominator and          *)
 (*  intercept mistakes have relative effect >= 1e-2 and saturate the quantiser (2e-3) above the cap.                    *)
 (* For tiny integer-valued cases (event Tiny) TLC recomputes the exact coefficients with the operators of Mlr.tla.       *)
+(*                                                                                                                       *)
+(* LOCATION class (K3, loc = 1 in the Case event; paired runs of kind "shift"): responses with |mean| / sdev up to 1e9.   *)
+(* There amp ~ |mean|/sdev and the algorithmic floor 1e-8 must not be multiplied by it (1e-8 * 1e8 = 1 bounds nothing):   *)
+(*   BoundLoc = 1e-8 + 2e-13 * (kappa^2 + 1) * amp      (first order: fitted values, coefficients, normal equations)    *)
+(* and the generator stays where BoundLoc < Cap (TCase / TPair refuse a saturated bound, so nothing is judged where the  *)
+(* tolerance has lost its meaning).  The statistics have tolerances that follow from representability alone:             *)
+(*   reported R2 / SDEC^2 against 1 - RSS/TSS / RSS/n of the model's OWN fitted values, RSS and TSS summed two-pass in    *)
+(*   long double by the harness (its own error bound refb is logged and added): TolAlg + refb + RepR2(n, off), where      *)
+(*   RepR2 = (n eps off)^2 is the effect of the rounded mean on a two-pass TSS - a one-pass TSS is off by eps * off^2;    *)
+(*   R2 under a shift of the response: TolAlg + BoundLoc^2 (second order: the fit is at a minimum of RSS) + 8 eps amp;    *)
+(*   R2 >= 0 up to BoundLoc^2.                                                                                          *)
+(* TinyU: tiny integer problems run with the response moved by H = 2^17 .. 2^30 of its own units (exactly, in double);   *)
+(* TLC recomputes the exact R2, SDEC^2 and coefficients; tolerance 1e-8 + 16 eps H.                                       *)
+(* HISTORIES (K7): Hist / HFit events order several fits made in ONE process; every fit is judged against its own data   *)
+(* by the same actions as a single fit, the relation of a fit to its predecessor is recomputed here from the logged      *)
+(* shapes and data digests.  Ols / OlsCase: direct OrdinaryLeastSquares() calls.  Refit: MLR() into a used model.         *)
 EXTENDS Mlr, TraceBase
 CONSTANT PropOnly
-VARIABLES l, kappa, amp, nresp, seenStat
-tvars == <<cid, X, y, ok, l, kappa, amp, nresp, seenStat>>
+VARIABLES l, kappa, amp, nresp, seenStat, nobj, loc, hprev, hseen
+tvars == <<cid, X, y, ok, l, kappa, amp, nresp, seenStat, nobj, loc, hprev, hseen>>
+LA == INSTANCE LedgerArith
 Ev == Tr[l]
 Step == l' = l + 1
 At(name) == l <= Len(Tr) /\ Ev.e = name
-Same == UNCHANGED <<cid, X, y, ok, kappa, amp, nresp, seenStat>>
+Same == UNCHANGED <<cid, X, y, ok, kappa, amp, nresp, seenStat, nobj, loc, hprev, hseen>>
 
 TolAlg == 10000
 One == 1000000000
@@ -25,31 +42,70 @@ Bound(kp, am) == IF am > Cap \div TolK(kp) THEN Cap ELSE TolK(kp) * am          
 Tol9(kp, am) == Bound(kp, am) \div 1000 + 2      \* the same bound in 1e-9 units, plus the two roundings
 AbsI(v) == IF v < 0 THEN -v ELSE v
 RespOK(j) == j \in 0..(nresp - 1)
+Sq(v) == v * v
 
-TInit == l = 1 /\ cid = 0 /\ X = <<>> /\ y = <<>> /\ ok = FALSE /\ kappa = 1 /\ amp = 1 /\ nresp = 0 /\ seenStat = {}
-TReset == At("Reset") /\ Step /\ nresp' = 0 /\ kappa' = 1 /\ amp' = 1 /\ seenStat' = {} /\ UNCHANGED <<cid, X, y, ok>>
+\* ---- location class ---------------------------------------------------------------------------------------------------
+KK(kp) == kp * kp + 1
+LocSat(kp, am) == (am \div 5 + 1) > (Cap - TolAlg) \div KK(kp)                            \* 2e-13 (kappa^2+1) amp would pass 1e-3: nothing can be judged
+BoundLoc(kp, am) == IF LocSat(kp, am) THEN Cap ELSE TolAlg + KK(kp) * (am \div 5 + 1)     \* the product is formed only when it is < Cap
+Bnd == IF loc = 1 THEN BoundLoc(kappa, amp) ELSE Bound(kappa, amp)                      \* first-order bound of the current case
+Sec(b) == Sq(b \div 1000000 + 1)                                                          \* b^2 in 1e-12 units (b in 1e-12 units, b <= Cap)
+RepMean(n, off) == (n * (off \div 1000 + 1)) \div 4                                       \* n eps off (mean of n doubles of size off sdev), 1e-12 units of sdev, x 2.2
+RepR2(n, off) == Sq((n * (off \div 1000 + 1)) \div 9000000 + 1) + 2                        \* (n eps off)^2: a rounded mean moves a two-pass TSS by n delta^2
+RepShift(am) == am \div 500 + 2                                                           \* 8 eps amp: cross term of the rounding of fitted values of size amp sdev
+OffOK(off) == off \in 0..1000000000
+
+\* ---- histories ----------------------------------------------------------------------------------------------------------
+NoFit == [n |-> 0, p |-> 0, ny |-> 0, dig |-> 0 - 1]
+RelOf(prev, seen, ev) ==
+   IF prev = NoFit THEN "first"
+   ELSE IF prev.n = ev.n /\ prev.p = ev.p /\ prev.ny = ev.ny /\ prev.dig = ev.dig THEN "same-data"
+   ELSE IF ev.dig \in seen THEN "again"
+   ELSE IF prev.n = ev.n /\ prev.p = ev.p THEN "same-shape"
+   ELSE IF prev.p = ev.p THEN "same-cols"
+   ELSE "other-shape"
+
+TInit == l = 1 /\ cid = 0 /\ X = <<>> /\ y = <<>> /\ ok = FALSE /\ kappa = 1 /\ amp = 1 /\ nresp = 0 /\ seenStat = {} /\ nobj = 0 /\ loc = 0
+         /\ hprev = NoFit /\ hseen = {}
+TReset == At("Reset") /\ Step /\ nresp' = 0 /\ kappa' = 1 /\ amp' = 1 /\ seenStat' = {} /\ nobj' = 0 /\ loc' = 0 /\ UNCHANGED <<cid, X, y, ok, hprev, hseen>>
 TSkip == At("Skip") /\ Step /\ Same
 \* the quantifier of the property
 TCase == /\ At("Case") /\ Step
-         /\ Ev.n \in 4..50 /\ Ev.p \in 1..10 /\ Ev.p + 1 < Ev.n /\ Ev.ny \in 1..4 /\ Ev.kappa \in 1..10000 /\ Ev.amp >= 1
-         /\ nresp' = Ev.ny /\ kappa' = Ev.kappa /\ amp' = Ev.amp /\ seenStat' = {} /\ UNCHANGED <<cid, X, y, ok>>
-TCoef == At("Coef") /\ Step /\ Same /\ RespOK(Ev.j) /\ Ev.err <= Bound(kappa, amp)
-TNormal == At("Normal") /\ Step /\ Same /\ RespOK(Ev.j) /\ Ev.err <= Bound(kappa, amp)
+         /\ Ev.n \in 4..50 /\ Ev.p \in 1..10 /\ Ev.p + 1 <= Ev.n /\ Ev.ny \in 1..4 /\ Ev.kappa \in 1..10000 /\ Ev.amp >= 1
+         /\ Ev.loc \in {0, 1} /\ OffOK(Ev.off)
+         /\ (Ev.loc = 1 => ~LocSat(Ev.kappa, Ev.amp))                   \* the location class is only generated where its bound means something
+         /\ nresp' = Ev.ny /\ kappa' = Ev.kappa /\ amp' = Ev.amp /\ seenStat' = {} /\ nobj' = Ev.n /\ loc' = Ev.loc
+         /\ UNCHANGED <<cid, X, y, ok, hprev, hseen>>
+TCoef == At("Coef") /\ Step /\ Same /\ RespOK(Ev.j) /\ Ev.err <= Bnd
+TNormal == At("Normal") /\ Step /\ Same /\ RespOK(Ev.j) /\ Ev.err <= Bnd
 \* reported R2 and SDEC are the definitions, R2 inside [0,1], residuals sum to zero, residual table = fitted - observed
+R2Low == IF loc = 1 THEN 10 + Sec(Bnd) \div 1000 + 2 ELSE Tol9(kappa, amp)      \* R2 >= 0: first-order slack for the classes that existed, second order for K3
 TStat == /\ At("Stat") /\ Step /\ RespOK(Ev.j) /\ Ev.j \notin seenStat
-         /\ Ev.r2 >= 0 - Tol9(kappa, amp) /\ Ev.r2 <= One + Tol9(kappa, amp)
+         /\ Ev.r2 >= 0 - R2Low /\ Ev.r2 <= One + Tol9(kappa, amp)
          /\ AbsI(Ev.r2 - (One - Ev.rssn)) <= Tol9(kappa, amp)
-         /\ Ev.r2gap <= Bound(kappa, amp) /\ Ev.sdecgap <= Bound(kappa, amp) /\ Ev.sumres <= Bound(kappa, amp) /\ Ev.residgap <= TolAlg
+         /\ Ev.r2gap <= Bnd /\ Ev.sdecgap <= Bnd /\ Ev.sumres <= Bnd /\ Ev.residgap <= TolAlg
+         \* against the long double reference: independent of conditioning and of the offset except through representability
+         /\ OffOK(Ev.off) /\ Ev.refb \in 0..100
+         /\ Ev.r2x <= TolAlg + Ev.refb + RepR2(nobj, Ev.off)
+         /\ Ev.sdx <= TolAlg + Ev.refb + RepR2(nobj, Ev.off)
+         /\ Ev.ymgap <= TolAlg + RepMean(nobj, Ev.off)                  \* MLRMODEL.ymean is the column mean of the training responses
          /\ (PropOnly \/ Ev.residsign = 1)              \* Impl: the stored residual is fitted - observed (sign convention of the present code)
-         /\ seenStat' = seenStat \cup {Ev.j} /\ UNCHANGED <<cid, X, y, ok, kappa, amp, nresp>>
-TRecover == At("Recover") /\ Step /\ Same /\ RespOK(Ev.j) /\ Ev.err <= Bound(kappa, amp)
+         /\ seenStat' = seenStat \cup {Ev.j} /\ UNCHANGED <<cid, X, y, ok, kappa, amp, nresp, nobj, loc, hprev, hseen>>
+TRecover == At("Recover") /\ Step /\ Same /\ RespOK(Ev.j) /\ Ev.err <= Bnd
 TPred == At("Pred") /\ Step /\ Same /\ Ev.shape = 1 /\ Ev.err <= TolAlg
 TNewStat == At("NewStat") /\ Step /\ Same /\ RespOK(Ev.j) /\ Ev.r2gap <= TolAlg /\ Ev.rmsegap <= TolAlg
+\* what MLRPredictY reports for unseen objects: R2 about the training mean as the model holds it (MLRMODEL.ymean, judged in Stat), SDEP^2 = RSS/m
+TPredStat == /\ At("PredStat") /\ Step /\ Same /\ RespOK(Ev.j) /\ OffOK(Ev.off)
+             /\ Ev.r2gap <= TolAlg + RepR2(nobj, Ev.off) /\ Ev.sdgap <= TolAlg
 \* paired runs; the second model has its own condition number (logged), both inside the quantifier; a change of units of the
 \* predictors (xscale, 1e-8..1e8) or of the responses (affine, 1e-8..1e8) keeps the condition number of the equilibrated problem
 TPair == /\ At("Pair") /\ Step /\ Same
-         /\ Ev.kind \in {"affine", "remix", "xscale"} /\ Ev.kappa2 \in 1..10000 /\ Ev.amp2 >= 1
-         /\ Ev.err <= Bound(IF Ev.kappa2 > kappa THEN Ev.kappa2 ELSE kappa, Ev.amp2)
+         /\ Ev.kind \in {"affine", "remix", "xscale", "xshift", "shift"} /\ Ev.kappa2 \in 1..10000 /\ Ev.amp2 >= 1
+         /\ IF Ev.kind = "shift"
+            THEN /\ ~LocSat(kappa, Ev.amp2) /\ Ev.amp2 >= amp
+                 /\ Ev.err <= BoundLoc(kappa, Ev.amp2)
+                 /\ Ev.r2d <= TolAlg + Sec(BoundLoc(kappa, Ev.amp2)) + RepShift(Ev.amp2)
+            ELSE Ev.err <= Bound(IF Ev.kappa2 > kappa THEN Ev.kappa2 ELSE kappa, Ev.amp2)
 TReuse == At("Reuse") /\ Step /\ Same /\ Ev.shape = 1 /\ Ev.err <= TolAlg
 \* tiny integer case: b4 = coefficients reported by the library in units of 1e-4; exact coefficients recomputed here
 TTiny == /\ At("Tiny") /\ Step /\ Same
@@ -58,9 +114,46 @@ TTiny == /\ At("Tiny") /\ Step /\ Same
             /\ Len(Ev.b4) = Len(cd.num)
             /\ \A a \in 1..Len(cd.num) : AbsI(Ev.b4[a] * cd.det - cd.num[a] * 10000) <= AbsI(cd.det)
             /\ ThNormal(Ev.X, Ev.y, cd)
+\* tiny integer case in a LOCATION unit system: the library saw predictors (X + hx) 2^e and the response y 2^f + sg 2^G, H = 2^(G-f); the
+\* results come back mapped to the units of (X + hx, y): slopes unchanged, intercept b0 - hx * (sum of slopes), R2 unchanged, SDEC^2 unchanged
+Floor4(num, det) == LET q == LA!MulDiv(AbsI(num), 10000, AbsI(det)) IN IF (num < 0) = (det < 0) THEN q ELSE 0 - q      \* num/det in 1e-4 units, towards zero
+TolU9(H) == 12 + H \div 250000                   \* 1e-8 + 16 eps H + roundings, 1e-9 units
+TolU8(H) == 3 + H \div 600000                    \* SDEC^2 (<= 4), 1e-8 units
+TTinyU == /\ At("TinyU") /\ Step /\ Same
+          /\ FullRank(Ev.X) /\ Ev.shape = 1 /\ Ev.H \in 1..1073741824 /\ Ev.hx \in (0 - 64)..64
+          /\ LET cd == CoefCD(Ev.X, Ev.y)
+                 sl == SumInt([j \in 1..Len(Ev.X[1]) |-> cd.num[j + 1]])
+                 num == [a \in 1..Len(cd.num) |-> IF a = 1 THEN cd.num[1] - Ev.hx * sl ELSE cd.num[a]]
+                 rss == Rss(Ev.X, Ev.y, cd)
+                 tss == Tss(Ev.y)
+                 s2 == Sdec2Of(rss, Len(Ev.X))
+             IN /\ Len(Ev.b4) = Len(num)
+                /\ \A a \in 1..Len(num) : AbsI(Ev.b4[a]) <= One /\ AbsI(Ev.b4[a] - Floor4(num[a], cd.det)) <= 3      \* (range first: saturated values must not overflow the difference)
+                /\ Ev.sd2 \in 0..One /\ AbsI(Ev.sd2 - LA!MulDiv(s2[1], 100000000, s2[2])) <= TolU8(Ev.H)
+                /\ (IsZ(tss) \/ LET r == R2Of(rss, tss) IN Ev.r2 \in (0 - One)..(One + One) /\ AbsI(Ev.r2 - LA!MulDiv(r[1], One, r[2])) <= TolU9(Ev.H))
+\* ---- in-process histories --------------------------------------------------------------------------------------------------
+THist == /\ At("Hist") /\ Step
+         /\ Ev.same \in {0, 1} /\ Ev.pat \in 0..4
+         /\ (Ev.step = 0) = (Ev.rel = "first") /\ (Ev.step = 0 => Ev.same = 0)
+         /\ LET prev == IF Ev.step = 0 THEN NoFit ELSE hprev
+                seen == IF Ev.step = 0 THEN {} ELSE hseen
+            IN /\ Ev.rel = RelOf(prev, seen, Ev)
+               /\ hprev' = [n |-> Ev.n, p |-> Ev.p, ny |-> Ev.ny, dig |-> Ev.dig]
+               /\ hseen' = IF prev = NoFit THEN {} ELSE seen \cup {prev.dig}
+         /\ UNCHANGED <<cid, X, y, ok, kappa, amp, nresp, seenStat, nobj, loc>>
+THFit == At("HFit") /\ Step /\ Same /\ Ev.same \in {0, 1} /\ Ev.want \in {0, 1} /\ Ev.step >= 0
+\* direct OrdinaryLeastSquares() on a design matrix (with or without a column of ones): coefficients against LAPACK, normal equations
+TOlsCase == /\ At("OlsCase") /\ Step
+            /\ Ev.n \in 4..50 /\ Ev.k \in 1..11 /\ Ev.k < Ev.n /\ Ev.icpt \in {0, 1} /\ Ev.kappa \in 1..10000 /\ Ev.amp >= 1
+            /\ kappa' = Ev.kappa /\ amp' = Ev.amp /\ nobj' = Ev.n /\ loc' = 0 /\ nresp' = 1 /\ seenStat' = {}
+            /\ UNCHANGED <<cid, X, y, ok, hprev, hseen>>
+TOls == At("Ols") /\ Step /\ Same /\ nresp = 1 /\ Ev.shape = 1 /\ Ev.err <= Bound(kappa, amp) /\ Ev.nerr <= Bound(kappa, amp)
+\* MLR() into a model that already holds a fit must give the model of the new data (the tables of a fresh fit)
+TRefit == At("Refit") /\ Step /\ Same /\ Ev.shape = 1 /\ Ev.kappa \in 1..10000 /\ Ev.amp >= 1 /\ Ev.err <= Bound(Ev.kappa, Ev.amp)
 TEnd == At("End") /\ Step /\ Same
 
-TNext == TReset \/ TSkip \/ TCase \/ TCoef \/ TNormal \/ TStat \/ TRecover \/ TPred \/ TNewStat \/ TPair \/ TReuse \/ TTiny \/ TEnd
+TNext == TReset \/ TSkip \/ TCase \/ TCoef \/ TNormal \/ TStat \/ TRecover \/ TPred \/ TNewStat \/ TPredStat \/ TPair \/ TReuse \/ TTiny \/ TTinyU
+         \/ THist \/ THFit \/ TOlsCase \/ TOls \/ TRefit \/ TEnd
 TSpec == TInit /\ [][TNext]_tvars
 TraceAccepted == Accepted
 Diag == ShowCursor(l)
